@@ -20,12 +20,17 @@ import (
 	"sync"
 	"time"
 
+	"github.com/pquerna/otp/totp"
 	"github.com/volatiletech/authboss/v3"
 	"github.com/volatiletech/authboss/v3/defaults"
 	"github.com/volatiletech/authboss/v3/expire"
 	"github.com/volatiletech/authboss/v3/lock"
+	"github.com/volatiletech/authboss/v3/otp/twofactor"
+	"github.com/volatiletech/authboss/v3/otp/twofactor/sms2fa"
+	"github.com/volatiletech/authboss/v3/otp/twofactor/totp2fa"
 	"github.com/volatiletech/authboss/v3/remember"
 	"golang.org/x/crypto/bcrypt"
+	"golang.org/x/oauth2"
 )
 
 type teeMailer struct {
@@ -42,13 +47,17 @@ func (t teeMailer) Send(ctx context.Context, e authboss.Email) error {
 }
 
 type raceWorld struct {
-	ab   *authboss.Authboss
-	st   *Store
-	sess *jarRW
-	cook *jarRW
-	mail *mailOut
-	h    http.Handler
-	sink *mailSink
+	ab      *authboss.Authboss
+	st      *Store
+	sess    *jarRW
+	cook    *jarRW
+	mail    *mailOut
+	h       http.Handler
+	sink    *mailSink
+	tok     *httptest.Server
+	smsOut  *smsOut
+	pagesMu sync.Mutex
+	pages   map[string][]byte // last response body per browser
 }
 
 // mailSink is where the shipped mailers deliver: an io.Writer for the LogMailer and a minimal SMTP
@@ -198,10 +207,37 @@ func newRaceWorld() (*raceWorld, error) {
 	ab.Config.Paths.Mount = "/auth"
 	ab.Config.Paths.RootURL = rootURL
 	ab.Config.Mail.From = "noreply@site.test"
-	if err := ab.Init("auth", "lock", "confirm", "recover", "register", "remember", "otp", "logout"); err != nil {
+	// a provider whose answer depends only on the authorisation code the client presents
+	w.tok = httptest.NewServer(http.HandlerFunc(func(rw http.ResponseWriter, r *http.Request) {
+		r.ParseForm()
+		rw.Header().Set("Content-Type", "application/json")
+		json.NewEncoder(rw).Encode(map[string]interface{}{"access_token": "tok-" + r.Form.Get("code"), "token_type": "bearer"})
+	}))
+	ab.Config.Modules.OAuth2Providers = map[string]authboss.OAuth2Provider{
+		"google": {
+			OAuth2Config: &oauth2.Config{ClientID: "id", ClientSecret: "secret",
+				Endpoint: oauth2.Endpoint{AuthURL: "http://provider.test/auth", TokenURL: w.tok.URL, AuthStyle: oauth2.AuthStyleInParams}},
+			FindUserDetails: func(_ context.Context, _ oauth2.Config, t *oauth2.Token) (map[string]string, error) {
+				uid := strings.TrimPrefix(t.AccessToken, "tok-")
+				return map[string]string{"uid": uid, "email": uid + "@o.io"}, nil
+			},
+		},
+	}
+	ab.Config.Modules.TOTP2FAIssuer = "verif"
+	if err := ab.Init("auth", "lock", "confirm", "recover", "register", "remember", "otp", "oauth2", "logout"); err != nil {
 		return nil, err
 	}
 	expire.Setup(ab)
+	w.smsOut = &smsOut{be: be}
+	if err := (&totp2fa.TOTP{Authboss: ab}).Setup(); err != nil {
+		return nil, err
+	}
+	if err := (&sms2fa.SMS{Authboss: ab, Sender: w.smsOut}).Setup(); err != nil {
+		return nil, err
+	}
+	if err := (&twofactor.Recovery{Authboss: ab}).Setup(); err != nil {
+		return nil, err
+	}
 	w.ab = ab
 	mux := http.NewServeMux()
 	mux.Handle("/auth/", http.StripPrefix("/auth", ab.Config.Core.Router))
@@ -231,6 +267,12 @@ func (w *raceWorld) do(b, method, path string, form url.Values) (int, string, st
 	r.Header.Set("X-Browser", b)
 	rec := httptest.NewRecorder()
 	w.h.ServeHTTP(rec, r)
+	w.pagesMu.Lock()
+	if w.pages == nil {
+		w.pages = map[string][]byte{}
+	}
+	w.pages[b] = append([]byte(nil), rec.Body.Bytes()...)
+	w.pagesMu.Unlock()
 	page := ""
 	var d struct {
 		Page string `json:"page"`
@@ -241,6 +283,21 @@ func (w *raceWorld) do(b, method, path string, form url.Values) (int, string, st
 		page = rec.Body.String()
 	}
 	return rec.Code, rec.Result().Header.Get("Location"), page
+}
+
+// lastCodes returns the first recovery code the last page shown to browser b carried
+func (w *raceWorld) lastCodes(b string) string {
+	w.pagesMu.Lock()
+	defer w.pagesMu.Unlock()
+	var d struct {
+		Data struct {
+			Codes []string `json:"recovery_codes"`
+		} `json:"data"`
+	}
+	if json.Unmarshal(w.pages[b], &d) == nil && len(d.Data.Codes) > 0 {
+		return d.Data.Codes[0]
+	}
+	return "none"
 }
 
 func (w *raceWorld) waitToken(email, kind string) string {
@@ -262,7 +319,7 @@ func (w *raceWorld) waitToken(email, kind string) string {
 }
 
 // clientScript is what one independent client does; it only touches its own account
-func clientScript(w *raceWorld, i int) []string {
+func clientScript(w *raceWorld, i int, heavy bool) []string {
 	b := fmt.Sprintf("b%d", i)
 	email := fmt.Sprintf("c%d@x.io", i)
 	pw := fmt.Sprintf("Passw0rd!c%d", i)
@@ -300,10 +357,50 @@ func clientScript(w *raceWorld, i int) []string {
 	note("login-old", c, l, p)
 	c, l, p = w.do(b, "POST", "/auth/login", url.Values{"email": {email}, "password": {np}})
 	note("login-new", c, l, p)
+	if !heavy { // recovery codes are bcrypted at the default cost (seconds under the race detector): one client of every twelfth run does the 2FA and OAuth2 part
+		if u, _ := w.st.Load(context.Background(), email); u != nil {
+			usr := unwrapUser(u)
+			tr = append(tr, fmt.Sprintf("final:confirmed=%v:attempts=%d:otps=%d", usr.Confirmed, usr.AttemptCount, len(splitNonEmpty(usr.OTPs))))
+		}
+		return tr
+	}
+	// second factors on the (now logged-in) account: TOTP enrolment, then a login completed by a recovery code, and its replay
+	c, l, p = w.do(b, "POST", "/auth/2fa/totp/setup", nil)
+	note("totp-setup", c, l, p)
+	code := "000000"
+	if sec := w.sess.get(b)["totp_secret"]; sec != "" {
+		if x, err := totp.GenerateCode(sec, time.Now()); err == nil {
+			code = x
+		}
+	}
+	c, l, p = w.do(b, "POST", "/auth/2fa/totp/confirm", url.Values{"code": {code}})
+	note("totp-confirm", c, l, "") // the page carries the recovery codes
+	rc := w.lastCodes(b)
+	c, l, p = w.do(b, "POST", "/auth/logout", nil)
+	note("logout2", c, l, p)
+	c, l, p = w.do(b, "POST", "/auth/login", url.Values{"email": {email}, "password": {np}})
+	note("login-2fa", c, l, p)
+	c, l, p = w.do(b, "POST", "/auth/2fa/totp/validate", url.Values{"recovery_code": {rc}})
+	note("totp-validate-rc", c, l, p)
+	c, l, p = w.do(b, "POST", "/auth/2fa/totp/validate", url.Values{"recovery_code": {rc}})
+	note("totp-validate-rc-again", c, l, p)
+	// OAuth2 in a second browser of the same client
+	b2 := b + "o"
+	c, l, _ = w.do(b2, "GET", "/auth/oauth2/google", nil)
+	note2 := func(step string, code int, loc string) {
+		if strings.HasPrefix(loc, "http://provider.test/auth") {
+			loc = "provider"
+		}
+		tr = append(tr, fmt.Sprintf("%s:%d:%s:uid=%s", step, code, loc, w.sess.get(b2)["uid"]))
+	}
+	note2("oauth2-start", c, l)
+	c, l, _ = w.do(b2, "GET", "/auth/oauth2/callback/google", url.Values{"state": {w.sess.get(b2)["oauth2_state"]}, "code": {fmt.Sprintf("o%d", i)}})
+	note2("oauth2-callback", c, l)
 	u, _ := w.st.Load(context.Background(), email)
 	if u != nil {
 		usr := unwrapUser(u)
-		tr = append(tr, fmt.Sprintf("final:confirmed=%v:attempts=%d:otps=%d", usr.Confirmed, usr.AttemptCount, len(splitNonEmpty(usr.OTPs))))
+		tr = append(tr, fmt.Sprintf("final:confirmed=%v:attempts=%d:otps=%d:totp=%v:rcs=%d", usr.Confirmed, usr.AttemptCount,
+			len(splitNonEmpty(usr.OTPs)), usr.TOTPSecretKey != "", len(splitNonEmpty(usr.RecoveryCodes))))
 	}
 	return tr
 }
@@ -337,7 +434,7 @@ func init() {
 					if err != nil {
 						return err
 					}
-					solo[i] = clientScript(w, i)
+					solo[i] = clientScript(w, i, i == 0 && run%12 == 0)
 				}
 				w, err := newRaceWorld()
 				if err != nil {
@@ -349,7 +446,7 @@ func init() {
 					wg.Add(1)
 					go func(i int) {
 						defer wg.Done()
-						conc[i] = clientScript(w, i)
+						conc[i] = clientScript(w, i, i == 0 && run%12 == 0)
 					}(i)
 				}
 				wg.Wait()
